@@ -298,27 +298,32 @@ def check_generic_fields(case: t.Any, ctx: Ctx) -> None:
     import types as _types
     import pane.annotations as A
     (rnd, pair) = case
+    from pane.types import ValueOrList
     if 'G' not in _GF:
         TV = t.TypeVar('TV')
         cond = A.len_range(min=0, max=9)
         _GF['G'] = _types.new_class('GenFields', (pane.PaneBase, t.Generic[TV]), {}, lambda ns: ns.update({'__annotations__': {
             'plain': TV, 'nested': t.Optional[t.List[TV]], 'mapped': t.Dict[str, TV], 'ann': t.Annotated[t.List[TV], cond],
-            'mixed': t.Optional[t.Dict[str, t.Union[TV, str]]]}}))
+            'mixed': t.Optional[t.Dict[str, t.Union[TV, str]]], 'vol': ValueOrList[TV]}}))
     G = _GF['G']
     types_ = {'float': float, 'int': int, 'Decimal': decimal.Decimal}
     (a, b) = (types_[pair[0]], types_[pair[1]])
-    other = G[t.Union[b, a]]       # type: ignore  # the opposite order exists (from an earlier case, or from now on)
-    Ty = G[t.Union[a, b]]          # type: ignore
     ctx.label(f"order:{pair[0]},{pair[1]}")
     ctx.nontrivial(True)
-    data = {'plain': 1, 'nested': [1], 'mapped': {'k': 1}, 'ann': [1], 'mixed': {'k': 1}}
+    ctx.evaluated()
+    (k0, Ty) = outcome(lambda: (G[t.Union[b, a]], G[t.Union[a, b]])[1])       # type: ignore  # (the opposite order exists, from now on at the latest)
+    if k0 != 'ok':
+        ctx.fail('leftmost-wins', f"through-type-variable:{type(Ty).__name__}", f"GenFields[Union[{pair[0]}, {pair[1]}]] after GenFields[Union[{pair[1]}, {pair[0]}]] "
+                 f"cannot be made: {type(Ty).__name__}: {str(Ty)[:200]}")
+        return
+    data = {'plain': 1, 'nested': [1], 'mapped': {'k': 1}, 'ann': [1], 'mixed': {'k': 1}, 'vol': [1]}
     ctx.evaluated()
     (k, r) = outcome(lambda: pane.from_data(data, Ty))
     want = a(1)
     if k != 'ok':
         ctx.fail('leftmost-wins', 'through-type-variable:refused', f"GenFields[Union[{pair[0]}, {pair[1]}]] given {data}: {type(r).__name__}: {str(r)[:200]}")
         return
-    got = {'plain': r.plain, 'nested': r.nested[0], 'mapped': r.mapped['k'], 'ann': r.ann[0], 'mixed': r.mixed['k']}
+    got = {'plain': r.plain, 'nested': r.nested[0], 'mapped': r.mapped['k'], 'ann': r.ann[0], 'mixed': r.mixed['k'], 'vol': list(r.vol)[0]}
     wrong = {f: type(x).__name__ for (f, x) in got.items() if type(x) is not type(want)}
     if wrong:
         ctx.fail('leftmost-wins', 'through-type-variable', f"GenFields[Union[{pair[0]}, {pair[1]}]] (GenFields[Union[{pair[1]}, {pair[0]}]] exists too) given 1 in every field: "
